@@ -41,7 +41,8 @@ def plan(tier, seed):
 def check_copies(ctx, u, case, sig):
     from ..obs import ACCESSORS
 
-    prefilled = tuple(sorted(k for k in getattr(u, "_cache", {}).keys()))
+    # list(dict) is one atomic C call: in the multi-thread jobs another thread may be filling this (shared, lru-cached) object's cache
+    prefilled = tuple(sorted(list(getattr(u, "_cache", {}))))
     order = list(ACCESSORS)
     ctx.rng.shuffle(order)
     sl = slots(u)
